@@ -52,6 +52,35 @@ def run(F, rep, tier):
             else:
                 rep.violation(r3, "driver:%s" % k, msg, "feel-parser/src/lalr.rs")
     lexer_progress_rule(F, rep)
+    integer_conversion_rule(F, rep)
+
+
+# ======================================================================================================
+# R05.5: premise of the audited index arithmetic - a number converts to an integer type only when it *is* that integer
+VALUE_CHANGING = ("trunc", "round", "floor", "ceiling", "ceil", "abs", "neg", "fract", "rescale", "quantize", "reduce_to")
+
+
+def integer_conversion_rule(F, rep):
+    """About thirty audited sites of the built-in functions (positions of sublist / remove / insert before, lengths, scales) argue "the value passed the sign test and
+    to_usize() succeeded, so it is an integer >= 1".  That holds because the conversions TryFrom<&FeelNumber> for the primitive integer types succeed only for integral
+    values: the number's own text is parsed as the integer type.  The premise is checked here: between the parameter and the parse no value-changing operation of FeelNumber
+    (trunc, round, floor, ...) may sit - with one, 0.5 converts to 0 and the audited `index - 1` underflows."""
+    rid = rep.rule("R05.5", "FeelNumber converts to a primitive integer only when it is that integer: no truncation / rounding between the number and the integer parse (premise of the audited position arithmetic)")
+    impls = [n for n in F.hir if re.search(r"TryFrom<&dmntk_feel_number::number::FeelNumber> for (u|i)(8|16|32|64|128|size)>::try_from$", n)]
+    if not impls:
+        rep.undecided(rid, "conversions", "no TryFrom<&FeelNumber> implementation for a primitive integer type found")
+        return
+    for n in sorted(impls):
+        h = F.hir[n]
+        key = "conv:%s" % n.split(" for ")[-1].split(">")[0]
+        bad = [c for c, _ in find_hir(h["body"], lambda x: x.get("k") == "MethodCall" and x.get("method") in VALUE_CHANGING and
+                                      "FeelNumber" in ((x.get("callee") or "") + str(F.ty(h, x["recv"].get("t")) if x["recv"].get("t") is not None else "")))]
+        if bad:
+            rep.violation(rid, key, "%s applies %s() to the number before converting it: a fraction such as 0.5 then converts (to 0) instead of failing, and the position arithmetic "
+                          "that relies on 'converted, hence an integer >= 1' underflows" % (n, bad[0]["method"]), "%s:%s" % (h["file"], bad[0].get("l")))
+        else:
+            rep.ok(rid, key, "the number's own text is parsed as the integer type")
+    rep.floor(rid, "integer conversions of FeelNumber", len(impls), 3)
 
 
 # ======================================================================================================
